@@ -128,6 +128,39 @@ fn fnv(s: &str) -> u64 {
     h
 }
 
+fn threaded(src: &str, n: usize) {
+    let chunks: Vec<String> = src.split("\n----\n").map(|s| s.to_string()).collect();
+    let mut handles = Vec::new();
+    for t in 0..n {
+        let chunks = chunks.clone();
+        handles.push(std::thread::spawn(move || {
+            let mut out = Vec::new();
+            for (i, chunk) in chunks.iter().enumerate() {
+                if chunk.trim().is_empty() {
+                    continue;
+                }
+                let Ok(ts) = chunk.parse::<TokenStream>() else { continue };
+                if syn::parse2::<syn::ItemEnum>(ts.clone()).is_err() {
+                    continue;
+                }
+                let _ = logos_codegen::verif::take();
+                let r = std::panic::catch_unwind(move || logos_codegen::generate(ts).to_string());
+                let dump = logos_codegen::verif::take().unwrap_or_default();
+                match r {
+                    Ok(o) => out.push(format!("T {} {} {:016x} {:016x}", t, i, fnv(&o), fnv(&dump))),
+                    Err(_) => out.push(format!("T {} {} PANIC", t, i)),
+                }
+            }
+            out
+        }));
+    }
+    for h in handles {
+        for l in h.join().unwrap() {
+            println!("{}", l);
+        }
+    }
+}
+
 fn main() {
     let args: Vec<String> = std::env::args().collect();
     let want_code = args.iter().any(|a| a == "--code");
@@ -135,6 +168,10 @@ fn main() {
     let mut s = String::new();
     std::io::stdin().read_to_string(&mut s).unwrap();
     std::panic::set_hook(Box::new(|_| {}));
+    if let Some(p) = args.iter().position(|a| a == "--threads") {
+        threaded(&s, args[p + 1].parse().unwrap());
+        return;
+    }
     for (i, chunk) in s.split("\n----\n").enumerate() {
         if chunk.trim().is_empty() {
             continue;
